@@ -257,6 +257,8 @@ func parseBlockHeader(b *Block, rest string) error {
 		name, typ := splitWord(rest)
 		b.Name = name
 		b.Result = typ
+	case "data":
+		b.Name = rest
 	case "axiom":
 		b.Name = "axiom"
 		e, err := parseSExpr(rest)
@@ -359,6 +361,7 @@ type SExpr struct {
 	Args []*SExpr
 	Val  string
 	Vars []SParam // quantifier variables
+	Pats []*SExpr // quantifier triggers
 	Pos  int
 }
 
@@ -516,6 +519,16 @@ func (p *sparser) expr() *SExpr {
 			}
 		}
 		p.expect("::")
+		// optional triggers: { t1, t2 }
+		if p.accept("{") {
+			for !p.isOp("}") {
+				q.Pats = append(q.Pats, p.expr())
+				if !p.accept(",") {
+					break
+				}
+			}
+			p.expect("}")
+		}
 		q.Args = []*SExpr{p.expr()}
 		return q
 	}
